@@ -199,7 +199,8 @@ func (ctx *Context) NotCompress() bool {
 }
 
 func (ctx *Context) Same() bool {
-	return ctx.distinctCount == 1
+	// the same-value frame stores the count in 16 bits; longer blocks take the RLE frame
+	return ctx.distinctCount == 1 && ctx.valueCount <= math.MaxUint16
 }
 
 func (ctx *Context) RLE() bool {
